@@ -8,7 +8,7 @@
 (*   ChooseBig           tables just above 2^24 / 2^25 bytes with row sizes 3, 12, 20, 24  *)
 (*                       (not dividing a power of two) and 8, 16 (dividing it)            *)
 (*   ChooseIO / SimIO    writer entry point, row count in RowCounts, memory layout of the  *)
-(*                       array argument, header id (crossed when CrossIO - layouts for    *)
+(*                       array argument (incl. a 2-d table, one dtype in three), header id (crossed when CrossIO - layouts for    *)
 (*                       the one-field dtypes -, else chosen by a covering rule); a user   *)
 (*                       header key that looks like a reserved name (delim, SIZE, Dtype,  *)
 (*                       nrows, shape, has_fields, version x letter case x value kind)    *)
@@ -50,7 +50,7 @@ OrdersOf(k) == IF HasOrder(k[1], k[2]) THEN {"lt", "gt"} ELSE {"na"}
 Fld(nm, k, sh, o) == [name |-> nm, kind |-> k[1], size |-> k[2], shape |-> sh, order |-> o]
 Pick(s, i) == s[(i % Len(s)) + 1]
 
-LayoutSeq == <<"contig", "step2", "reversed", "column2d", "zerod">>
+LayoutSeq == <<"contig", "step2", "reversed", "column2d", "zerod", "table2d">>
 \* user header keys that look like reserved names (the reserved name without its underscore, in any letter case);
 \* they are ordinary user keys.  lc: lower / upper / capitalised; val: a value of the type the reserved entry has
 \* ("plausible") or a short text.  "none": no such key.
@@ -128,9 +128,9 @@ ChooseIO ==
     /\ phase = "descr" /\ src # "sim"
     /\ IF CrossIO
        THEN \E wi \in DOMAIN WriterSeq, ri \in DOMAIN RowSeq :
-            \E li \in (IF src = "single" THEN DOMAIN LayoutSeq ELSE {((Mix + wi + 2 * ri) % Len(LayoutSeq)) + 1}) :
+            \E li \in (IF src = "single" THEN DOMAIN LayoutSeq ELSE {((Mix + wi + 2 * ri) % 5) + 1} \cup (IF (Mix + wi) % 3 = 0 THEN {6} ELSE {})) :
                c' = MkCase(WriterSeq[wi], RowSeq[ri], (Mix + 5 * wi + 3 * ri) % NHdr, LayoutSeq[li])
-       ELSE \E li \in {(Mix % Len(LayoutSeq)) + 1, ((Mix \div 5 + Len(d)) % Len(LayoutSeq)) + 1} :
+       ELSE \E li \in {(Mix % 5) + 1, ((Mix \div 5 + Len(d)) % 5) + 1} \cup (IF Mix % 3 = 0 THEN {6} ELSE {}) :
                c' = MkCase(Pick(WriterSeq, Mix + li), Pick(RowSeq, Mix \div 2 + Len(d) + li), (Mix \div 3 + li) % NHdr, LayoutSeq[li])
     /\ phase' = "case" /\ UNCHANGED <<file, res, src, d, gen, ridx, seen, last, hpos>>
 
